@@ -11,6 +11,7 @@ from . import c11, c13
 from .c03 import _pyint_carrier
 
 ID = 'C18'
+TECHNIQUE = 'runtime monitoring: wide (64..256 bit) store events judged against exact integer saturate / wrap and flags; C11 and C13 judges re-used on wide objects; extended_prec indicator monitor'
 TITLE = 'extended precision (64..256 bits) bit-exact'
 RULE = ('events on objects with n_word in 64..256: stores of Python integers (raw=True codes, or integer values with v*2^n_frac integral) must give exactly '
         'saturate/wrap of the integer with exact overflow/underflow flags and Python-int codes; full-width bin/hex strings in raw mode restore their code '
